@@ -55,4 +55,10 @@ TABLE = {
     'C03': {'technique': 'exploration: structure-aware mutants from the KzFormat field catalogue decoded in watchdog-guarded child processes, judged by a TLC trace spec; containment design (helper goroutines, reader liveness under faults) model-checked in TLA+',
             'text': 'KzHelpers.tla (helper goroutines of the inverse BWT) and KzReader.tla under failures (liveness, deadlock freedom) decide the containment design; totality over all inputs is EXPLORED: base streams over random chains and all codecs, mutated field by field (header fields with recomputed header checksum, every transform/entropy code, block length fields, mode/skip/pre-transform length, first 24 bytes of codec data such as BWT primary indexes, plus random bytes, truncations, splices, garbage, and the multi-MiB inverse BWT regime), each decoded in a child process with jobs 1..8 under a watchdog; Trace_Total.tla requires normal return within the bound.',
             'note': 'exploration level: no claim for all byte strings; hangs are confirmed by an isolated re-run before they count'},
+    'C13': {'technique': 'exploration: contract model in TLA+ (KzSequence.tla, model-checked) + every transform run against the contract, each event judged by a TLC trace spec',
+            'text': 'KzSequence.tla models Forward/Inverse of the transform sequence and the mode/skip-flag bytes over abstract stages and is model-checked for every vector of stage outcomes and length changes (chains up to 6, 8 in thorough): if each stage honours the per-stage contract the inverse sequence restores the block inside the decoder buffers; a dirty decline and the as-found sequence are shown to break it. The 19 real transforms (built as the factory builds them, plus chains through transform.New) are then run against exactly that contract on 19 data shapes x sizes x data-type hints x entropy context, forward into a buffer of exactly MaxEncodedLen and inverse into a buffer of the decompressor size; Trace_Transform.tla judges every event.',
+            'note': 'exploration level: no claim that each transform is an inverse pair for all inputs; trusted: TLC, harness'},
+    'C12': {'technique': 'exploration: framing model in TLA+ (KzEntropyFrame.tla with the transcribed NormalizeFrequencies, model-checked) + every codec on the derived case space with a sentinel word, each event judged by a TLC trace spec',
+            'text': 'KzEntropyFrame.tla (raw threshold, chunk loop, header carrying all frequencies but the first, decoder rebuilding the first) is model-checked: encoder and decoder tables agree iff the scaled table sums to the scale. The 9 real entropy codecs are run as encoder/decoder pairs over the length classes around the raw threshold and the internal chunk sizes x data families (shapes, alphabets of 1..256 symbols, r rare + d dominant symbols) x bit alignments, with a 64-bit sentinel written after the block; Trace_Entropy.tla requires decoded = original, bits read = bits written and an intact sentinel.',
+            'note': 'exploration level; known finding F10 (empty block through FPAQ/CM/TPAQ/TPAQX) is listed in known_findings.jsonl'},
 }
